@@ -23,7 +23,7 @@ template <class W>
 static RunOut run_entry_t(const std::string &entry, const GraphSpec &s) {
     RunOut r;
     std::unique_ptr<tbb::global_control> gc;
-    if (g_workers > 0) gc.reset(new tbb::global_control(tbb::global_control::max_allowed_parallelism, (std::size_t) g_workers));
+    gc.reset(new tbb::global_control(tbb::global_control::max_allowed_parallelism, (std::size_t) (g_workers > 0 ? g_workers : 2)));
     BG<W> bg(s);
     typedef typename BG<W>::Edge Edge;
     std::list<std::list<Edge>> cycles;
@@ -279,7 +279,7 @@ static Case gen_c08() {
             c.extra.push_back(b);
         }
     }
-    c.workers = coin(50) ? 0 : pick(1, 4);
+    { static const int ws[] = {1, 2, 2, 3, 4, 8}; c.workers = ws[pick(0, 5)]; }   // always bounded: 16 shards run side by side
     return c;
 }
 
